@@ -20,7 +20,7 @@ from . import arrays as A
 from .arrays import SArr
 from . import ops
 
-REPO_SRC = os.environ.get("PYVC_REPO_SRC", "/repo/src")
+REPO_SRC = os.path.join(os.environ.get("PYVC_REPO", "/repo"), "src")
 
 
 # ----------------------------------------------------------------------------- source access
